@@ -5,9 +5,9 @@
    to_epoch / from_epoch are the Go expressions of customfuncs/datetime.go with int64
    wrap-around written out; the theorems show no wrap occurs in that range.  The zone theorems
    hold for EVERY zone behaviour (off_of_instant, off_of_wall are universally quantified). *)
-From Coq Require Import ZArith List Bool.
+From Coq Require Import ZArith List Bool String.
 Import ListNotations.
-From OV Require Import Model.Time Proofs.Time.
+From OV Require Import Model.Int64 Gen.DateTime Model.Time Proofs.Time.
 Local Open Scope Z_scope.
 
 Theorem year_bounds_are_years_1_9999 :
@@ -97,6 +97,47 @@ Section C19Zones.
   Proof.
     intros t zf zt i. repeat split.
     exact (overwrite_keeps_wall off_of_instant off_of_wall t zf).
+  Qed.
+
+  (* ---- parseDateTime as a decision table.  parse_date_time is the transcription of the code
+     over the two zone steps read from the source (Gen/DateTime.v: guards, OverwriteTZ/ConvertTZ,
+     where hasTZ is set); decide/interp is what the function's comment promises, for every
+     combination of: zone in the input or not x fromTZ / toTZ empty, blank, unloadable, a zone.
+     For dateTimeLayoutToRFC3339 with a layout the layoutTZ flag alone plays the role of "zone in
+     the input", whatever the layout carried (offset, abbreviation, nothing). ---- *)
+  Theorem parse_date_time_is_decision_table : forall t hasTZ fromTZ toTZ,
+    parse_date_time (POk t hasTZ) fromTZ toTZ
+    = interp off_of_instant off_of_wall t (decide hasTZ fromTZ toTZ).
+  Proof. exact (parse_date_time_table off_of_instant off_of_wall). Qed.
+
+  Theorem layout_path_decision_table : forall t parser_flag b fromTZ toTZ,
+    date_time_layout_to_rfc3339 off_of_instant off_of_wall (Some (POk t parser_flag)) false (LtzBool b) fromTZ toTZ
+      = match interp off_of_instant off_of_wall t (decide b fromTZ toTZ) with
+        | None => RError
+        | Some (t', h') => RVal (rfc3339 off_of_instant t' h')
+        end
+    /\ date_time_layout_to_rfc3339 off_of_instant off_of_wall (Some (POk t parser_flag)) false LtzEmpty fromTZ toTZ
+      = date_time_layout_to_rfc3339 off_of_instant off_of_wall (Some (POk t parser_flag)) false (LtzBool false) fromTZ toTZ
+    /\ date_time_to_rfc3339 off_of_instant off_of_wall (Some (POk t parser_flag)) fromTZ toTZ
+      = match interp off_of_instant off_of_wall t (decide parser_flag fromTZ toTZ) with
+        | None => RError
+        | Some (t', h') => RVal (rfc3339 off_of_instant t' h')
+        end.
+  Proof.
+    intros t h b f to. split; [|split].
+    - exact (layout_table off_of_instant off_of_wall t h b f to).
+    - reflexivity.
+    - exact (smart_table off_of_instant off_of_wall t h f to).
+  Qed.
+
+  (* ---- F23 exactly: the text denotes the input instant IF AND ONLY IF the offset of the result
+     zone at that instant is a whole number of minutes ---- *)
+  Theorem rfc3339_same_instant_iff : forall t fromTZ toTZ o, toTZ <> TzBad ->
+    date_time_to_rfc3339 off_of_instant off_of_wall (Some (POk t true)) fromTZ toTZ = RVal o ->
+    (obs_instant o = Some (g_sec t)
+     <-> Z.rem (off_at (match toTZ with TzZone z => LZone z | _ => g_loc t end) (g_sec t)) 60 = 0).
+  Proof.
+    intros t f to o Hto H. exact (to_rfc3339_instant_iff off_of_instant off_of_wall t f to Hto o H).
   Qed.
 
   (* ---- dateTimeToRFC3339 / dateTimeLayoutToRFC3339 on input with zone: the printed wall
@@ -201,6 +242,23 @@ Theorem lenient_or_parsable_record_delivered : forall ms,
   record_outcome ms = Some (map (fun m => match snd m with RVal _ => true | _ => false end) ms).
 Proof. exact record_outcome_some. Qed.
 
+(* ---- what the extractor read from customfuncs/datetime.go and the theorems above rest on:
+   the unit strings (anything else is an error), the default zone of epochToDateTimeRFC3339;
+   to_epoch / from_epoch ARE the extracted expressions (Gen/DateTime.v to_epoch_expr,
+   from_epoch_expr), so epoch_millis_exact, from_epoch_exact and epoch_roundtrip are statements
+   about the arithmetic that is in the source now. ---- *)
+Theorem extracted_epoch_units :
+  (unit_of_string "SECOND" = Some USecond /\ unit_of_string "MILLISECOND" = Some UMillisecond
+   /\ unit_of_string "" = None /\ unit_of_string "second" = None /\ unit_of_string "MINUTE" = None
+   /\ epoch_default_zone = "UTC")%string
+  /\ (forall s, unit_of_string s = Some USecond /\ s = "SECOND"%string
+              \/ unit_of_string s = Some UMillisecond /\ s = "MILLISECOND"%string
+              \/ unit_of_string s = None)
+  /\ (forall u t, to_epoch u t = to_epoch_expr u t) /\ (forall u n, from_epoch u n = from_epoch_expr u n).
+Proof.
+  split; [exact extracted_units|]. split; [exact unit_of_string_total|]. split; reflexivity.
+Qed.
+
 (* ---- the full statement "the text denotes the same instant in every IANA zone" is false ------- *)
 (* Known finding (sub-minute zone offsets): RFC3339 text prints the offset in whole minutes, so
    in a zone whose offset has a seconds part the instant read back differs.  Witness: the
@@ -258,6 +316,14 @@ Example negative_sub_hour_offset_instance :
   = RVal (ObsZoned (63071999 - 2670) (-2640))
   /\ obs_instant (ObsZoned (63071999 - 2670) (-2640)) = Some (63071999 - 30).
 Proof. split; vm_compute; reflexivity. Qed.
+
+(* rows of the decision table *)
+Example decision_table_rows :
+  decide true TzBad (TzZone 2%N) = DKeep (Some 2%N) /\ decide true (TzZone 1%N) TzEmpty = DKeep None
+  /\ decide false TzEmpty TzEmpty = DBare /\ decide false (TzZone 1%N) TzEmpty = DBind 1%N 1%N
+  /\ decide false (TzZone 1%N) (TzZone 2%N) = DBind 1%N 2%N /\ decide false TzEmpty (TzZone 2%N) = DBind 2%N 2%N
+  /\ decide false TzBlank TzEmpty = DKeep None /\ decide false TzBad TzEmpty = DError /\ decide true TzEmpty TzBad = DError.
+Proof. repeat split; reflexivity. Qed.
 
 (* a blank (non-empty, all-space) fromTZ does not bind a zone but marks the result as zoned:
    "2020-01-01T00:00:00" with fromTZ " " prints "2020-01-01T00:00:00Z" (observed on the code) *)
